@@ -640,7 +640,7 @@ public:
     std::vector<Nref> nodeObjects;
     for (typename std::vector<NodeGraphid>::iterator currNode = nodes.begin(); currNode != nodes.end(); currNode++)
     {
-      if (*currNode > graphidToN_.size())
+      if (*currNode >= graphidToN_.size())
         continue;
       Nref foundNodeObject = graphidToN_.at(*currNode);
       if (!foundNodeObject)
@@ -671,7 +671,7 @@ public:
     std::vector<Eref> edgeObjects;
     for (const auto& currEdge:edges)
     {
-      if (currEdge > graphidToE_.size())
+      if (currEdge >= graphidToE_.size())
         continue;
       Eref foundEdgeObject = graphidToE_.at(currEdge);
       if (!foundEdgeObject)
@@ -1202,7 +1202,7 @@ public:
     // testing if they are defined in this observer
     for (typename std::vector<NodeGraphid>::iterator currGraphLeave = graphLeaves.begin(); currGraphLeave != graphLeaves.end(); currGraphLeave++)
     {
-      Nref foundLeafObject = graphidToN_.at(*currGraphLeave);
+      Nref foundLeafObject = getNodeFromGraphid(*currGraphLeave);
       if (foundLeafObject != 00)
         leavesToReturn.push_back(foundLeafObject);
     }
@@ -1224,7 +1224,7 @@ public:
     // testing if they are defined in this observer
     for (typename std::vector<NodeGraphid>::iterator currGraphLeave = graphLeaves.begin(); currGraphLeave != graphLeaves.end(); currGraphLeave++)
     {
-      Nref foundLeafObject = graphidToN_.at(*currGraphLeave);
+      Nref foundLeafObject = getNodeFromGraphid(*currGraphLeave);
       if (foundLeafObject != 00)
         leavesToReturn.push_back(getNodeIndex(foundLeafObject));
     }
@@ -1245,7 +1245,7 @@ public:
     // testing if they are defined in this observer
     for (const auto& currGraphNode : graphNodes)
     {
-      Nref foundNodeObject = graphidToN_.at(currGraphNode);
+      Nref foundNodeObject = getNodeFromGraphid(currGraphNode);
       if (foundNodeObject != 00)
         nodesToReturn.push_back(foundNodeObject);
     }
@@ -1266,7 +1266,7 @@ public:
     // testing if they are defined in this observer
     for (const auto& currGraphNode : graphNodes)
     {
-      Nref foundNodeObject = graphidToN_.at(currGraphNode);
+      Nref foundNodeObject = getNodeFromGraphid(currGraphNode);
       if (foundNodeObject != 00)
         nodesToReturn.push_back(getNodeIndex(foundNodeObject));
     }
